@@ -179,6 +179,19 @@ def build() -> Check:
         res = [i for i, e in enumerate(evs) if e.kind == "RESULT"]
         if res and res[0] < pool_enter[0]:
             bad.append(("the handler result is awaited outside the pool's context", t))
+    # ... and the stop signal itself is not preceded, once the handler is done, by a wait nobody is obliged to end
+    # (a blocking call placed before the signal turns "always stopped" into "stopped if that wait returns")
+    badw = []
+    for t in wt:
+        evs = t.events
+        stops = [i for i, e in enumerate(evs) if e.kind == "EXT" and e.data["method"] == "set" and "stop_checkpointing" in e.site]
+        res = [i for i, e in enumerate(evs) if e.kind == "RESULT"]
+        if not stops:
+            continue
+        for e in evs[(res[0] if res else 0): min(stops)]:
+            if e.kind == "EXT" and e.data["method"] in ("join", "wait", "get", "acquire", "result") and not e.data.get("args") and not e.data.get("kwargs"):
+                badw.append((f"{e.data['recv']}.{e.data['method']}() (unbounded) runs before the checkpoint thread is told to stop, at {e.site}", t))
+    ck.ob("R4.stop-not-behind-a-wait", c_w, not badw, badw[0][0] if badw else "")
     ck.floor("paths_through_pool", n_with, 10)
     ck.ob("R4.stop-before-join", c_w, not bad, (bad[0][0]) if bad else f"{n_with} paths")
     for mod, q in (("state", "ExecutionState.checkpoint_batches_forever"), ("state", "ExecutionState._collect_checkpoint_batch")):
